@@ -286,6 +286,9 @@ def decl_module(d, ops_wanted):
         arms.append('"views" => guard(|| { let x = <Inner as Arg>::parse(arg); let t = match %s { Some(t) => t, None => return "rejected".to_string() }; '
                     'let i: Inner = %s.unwrap().into_inner(); let mut out = String::new(); %s out.trim_end().to_string() }),'
                     % (mk % "x.clone()", mk % "x.clone()", " ".join(vf)))
+    if inner == "f32" and info.has_validation and not info.custom:
+        # thorough tier: ALL 2^32 bit patterns through the constructor, summarised
+        arms.append(SWEEP_F32)
     if "Arbitrary" in info.traits:
         arms.append('"arb" => { let a = arg.to_string(); watchdog(move || guard(|| { let bytes = bytes_arg(&a); let mut u = arbitrary::Unstructured::new(&bytes); match <TT as arbitrary::Arbitrary>::arbitrary(&mut u) { Ok(v) => ok(v.into_inner()), Err(_) => "arb_err".to_string() } })) },')
         if inner in INT_TYPES:
@@ -327,6 +330,43 @@ ARB_COVER = r'''"arb_cover" => guard(|| {
                 format!("cover n={} min={} max={} panics={} errs={} valid_n={} missing={} extra={}", produced.len(),
                     produced.iter().next().map(|x| x.to_string()).unwrap_or("-".to_string()),
                     produced.iter().next_back().map(|x| x.to_string()).unwrap_or("-".to_string()), panics, errs, valid.len(), missing, extra)
+            }),'''
+
+
+SWEEP_F32 = r'''"sweep_f32" => guard(|| {
+                // every f32 bit pattern: number accepted, number of accepted NaNs, smallest / largest accepted
+                // (in the IEEE order, by the key: positive -> bits, negative -> -(bits & 0x7fffffff)), number unchanged
+                let threads = 16u64;
+                let handles: Vec<_> = (0..threads).map(|t| std::thread::spawn(move || {
+                    let lo = (t << 32) / threads; let hi = ((t + 1) << 32) / threads;
+                    let (mut ok, mut nan_ok, mut changed) = (0u64, 0u64, 0u64);
+                    let (mut kmin, mut kmax) = (i64::MAX, i64::MIN);
+                    let mut errs = std::collections::BTreeMap::<String, u64>::new();
+                    for b in lo..hi {
+                        let x = f32::from_bits(b as u32);
+                        match TT::try_new(x) {
+                            Ok(v) => {
+                                let y = v.into_inner();
+                                ok += 1;
+                                if y.to_bits() != x.to_bits() { changed += 1; }
+                                if y.is_nan() { nan_ok += 1; } else {
+                                    let bits = y.to_bits() as i64;
+                                    let k = if bits & 0x8000_0000 != 0 { -(bits & 0x7fff_ffff) } else { bits };
+                                    if k < kmin { kmin = k; } if k > kmax { kmax = k; }
+                                }
+                            }
+                            Err(e) => { *errs.entry(ename(&e)).or_insert(0) += 1; }
+                        }
+                    }
+                    (ok, nan_ok, changed, kmin, kmax, errs)
+                })).collect();
+                let (mut ok, mut nan_ok, mut changed) = (0u64, 0u64, 0u64);
+                let (mut kmin, mut kmax) = (i64::MAX, i64::MIN);
+                let mut errs = std::collections::BTreeMap::<String, u64>::new();
+                for h in handles { let (a, b_, c, d, e, f) = h.join().unwrap(); ok += a; nan_ok += b_; changed += c; if d < kmin { kmin = d; } if e > kmax { kmax = e; }
+                    for (k, v) in f { *errs.entry(k).or_insert(0) += v; } }
+                let es: Vec<String> = errs.iter().map(|(k, v)| format!("{}:{}", k.replace("err ", ""), v)).collect();
+                format!("sweep ok={} nan_ok={} changed={} kmin={} kmax={} errs={}", ok, nan_ok, changed, kmin, kmax, es.join(","))
             }),'''
 
 
